@@ -25,6 +25,10 @@ func main() {
 		c14Worker(os.Args[2:])
 		return
 	}
+	if len(os.Args) > 1 && os.Args[1] == "c20worker" {
+		c20Worker(os.Args[2:])
+		return
+	}
 	levels := map[string]string{"C09": "exploration", "C13": "exploration", "C14": "exploration", "C20": "exploration"}
 	o, run := cli.Parse(levels)
 	cli.Guard("monitor body", func() { monitors[o.Prop](o, run) })
